@@ -214,6 +214,9 @@ class Arrow:
     def __getitem__(self, key):
         if isinstance(key, slice):
             if key.step == -1:
+                if key.start is not None or key.stop is not None:
+                    start, stop, _ = key.indices(len(self))
+                    return self[stop + 1:start + 1][::-1]
                 boxes = [box[::-1] for box in self.boxes[key]]
                 return self.upgrade(
                     Arrow(self.cod, self.dom, boxes, _scan=False))
